@@ -68,6 +68,103 @@ def new_seq(lm, text, protein):
 @guard
 def collect():
     return gc.collect()
+
+import errno
+
+class SimFile:
+    """File object of the Python tier: read(n) returns at most n bytes per the transport plan."""
+    def __init__(self, data, plan):
+        self.data = data if plan["truncate"] is None else data[:plan["truncate"]]
+        self.pos = 0
+        self.chunks = plan["chunks"]
+        self.ci = 0
+        self.cuts = plan["cuts"]
+        self.eintr = dict(plan["eintr"])
+        self.error_at = plan["error_at"]
+        self.errno = plan["errno"]
+        self.reads = 0
+        self.fetches = 0
+        self.eintr_fired = 0
+        self.hard_fired = 0
+        self.short_reads = 0
+        self.failed = False
+        self.budget = 8 * len(data) + 8 * sum(self.eintr.values()) + 1000
+        self.budget_exceeded = False
+
+    def _exc(self):
+        if self.errno:
+            return OSError(self.errno, "simulated I/O error")
+        return ValueError("simulated failure in read()")
+
+    def read(self, n=-1):
+        if n == 0:
+            return b""
+        self.reads += 1
+        if self.reads > self.budget:
+            self.budget_exceeded = True
+            raise RuntimeError("SIM-BUDGET: file object read beyond its budget")
+        if self.failed:
+            self.hard_fired += 1
+            raise self._exc()
+        left = self.eintr.get(self.fetches, 0)
+        if left > 0:
+            self.eintr[self.fetches] = left - 1
+            self.eintr_fired += 1
+            raise OSError(errno.EINTR, "simulated EINTR")
+        self.fetches += 1
+        if self.error_at is not None and self.error_at <= len(self.data) and self.pos >= self.error_at:
+            self.failed = True
+            self.hard_fired += 1
+            raise self._exc()
+        remaining = len(self.data) - self.pos
+        if remaining <= 0:
+            return b""
+        want = remaining if (n is None or n < 0) else min(n, remaining)
+        k = want
+        if self.chunks:
+            k = min(k, max(1, self.chunks[self.ci % len(self.chunks)]))
+            self.ci += 1
+        for c in self.cuts:
+            if c > self.pos:
+                k = min(k, c - self.pos)
+                break
+        if self.error_at is not None and self.error_at > self.pos:
+            k = min(k, self.error_at - self.pos)
+        if k < want:
+            self.short_reads += 1
+        out = self.data[self.pos:self.pos + k]
+        self.pos += k
+        return out
+
+def describe_motif(m):
+    counts = m.counts
+    d = {"name": m.name,
+         "description": getattr(m, "description", None),
+         "id": getattr(m, "id", None),
+         "accession": getattr(m, "accession", None),
+         "counts": None if counts is None else [list(counts[i]) for i in range(len(counts))],
+         "pwm": None}
+    if counts is None:
+        pwm = m.pwm
+        d["pwm"] = [_f(list(pwm[i])) for i in range(len(pwm))]
+    return d
+
+def load_all(lm, data, plan, fmt, protein):
+    f = SimFile(data, plan)
+    motifs = []
+    end = {}
+    try:
+        for m in lm.load(f, format=fmt, protein=protein):
+            motifs.append(describe_motif(m))
+            if len(motifs) > len(data) + 2:
+                end = {"exc": "TooManyItems", "panic": False, "is_exception": True, "msg": "more items than bytes"}
+                f.budget_exceeded = True
+                break
+    except BaseException as e:
+        end = _exc(e)
+    return json.dumps({"reads": f.reads, "eintr_fired": f.eintr_fired, "hard_fired": f.hard_fired,
+                       "short_reads": f.short_reads, "budget_exceeded": f.budget_exceeded,
+                       "motifs": motifs, "end": end})
 "#;
 
 pub struct PyEnv {
